@@ -113,6 +113,30 @@ def tie_rule(ck, facts):
         ck.bad("R5.6", "R5.6@hash_n_degree_quads#anchor", "anchor-missing: the per-permutation closure (%d)" % len(fns))
         return
     cf = fns[0]
+    # R5.7: the list that is permuted must not carry the order in which the dataset yielded its quads
+    parents = facts.find_fns(crate="sophia_c14n", name_re=r"C14nState::<'_, H, T>::hash_n_degree_quads$")
+    sorted_first = False
+    if len(parents) != 1:
+        ck.bad("R5.7", "R5.7@hash_n_degree_quads#anchor", "anchor-missing (%d)" % len(parents))
+    else:
+        pf = parents[0]
+        perms = [(bi, t) for bi, t in pf.calls() if call_name_matches(t, r"for_each_permutation_of$")]
+        if len(perms) != 1 or not perms[0][1]["args"] or perms[0][1]["args"][0][0] == "k":
+            ck.bad("R5.7", "R5.7@hash_n_degree_quads#anchor", "anchor-missing: the call of for_each_permutation_of (%d)" % len(perms), pf.loc)
+        else:
+            pb, pt = perms[0]
+            lst = root_local(pf, pt["args"][0])[0]
+            for sb, st in sort_calls(pf):
+                if st["args"] and st["args"][0][0] != "k" and root_local(pf, st["args"][0])[0] == lst and pf.dominates(sb, pb):
+                    sorted_first = True
+            if sorted_first:
+                ck.ok("R5.7", "hash_n_degree_quads sorts the list of related blank nodes before permuting it (the first of several equal paths "
+                              "does not depend on the order of the dataset's quads)")
+            else:
+                ck.bad("R5.7", "R5.7@hash_n_degree_quads#permutes-in-quad-order", "the list of related blank nodes is permuted in the order in which "
+                       "Dataset::quads() yielded the quads, and the first of several equal paths is kept: `_:n0 <p> _:n1 _:n2 . _:n1 <p> _:n2 "
+                       "_:n0 . _:n2 <p> _:n0 _:n1 .` loaded into a HashSet gives two different canonical documents from run to run",
+                       "%s:%s" % (pt["file"], pt["line"]))
     cmps = [t for _, t in cf.calls() if call_name_matches(t, r"cmp::PartialOrd::(lt|le|gt|ge|partial_cmp)$|cmp::Ord::cmp$|cmp::PartialEq::(eq|ne)$")
             and "String" in cf.locals[root_local(cf, t["args"][0])[0]]["ty"] + cf.locals[t["args"][0][1][0]]["ty"]]
     names = sorted({(t["f"].get("name") or "").split("::")[-1] for t in cmps})
@@ -121,9 +145,10 @@ def tie_rule(ck, facts):
     elif names == ["lt"]:
         ck.bad("R5.6", "R5.6@hash_n_degree_quads#step5.4.6-first-permutation-wins", "step 5.4.6 replaces the chosen path only if the new path "
                "is strictly smaller: among permutations with equal paths the first one enumerated wins, and the enumeration follows "
-               "the order in which the dataset yields its quads. Equal paths do not imply equivalent issuers when related blank nodes "
-               "occur in rotated positions including the graph name (findings/C05_blank_graph_name_ties.rs): the insertion order "
-               "/ the dataset implementation changes the canonical document", cf.loc)
+               "%s. Equal paths do not imply equivalent issuers when related blank nodes "
+               "occur in rotated positions including the graph name (findings/C05_blank_graph_name_ties.rs): %s changes the canonical document"
+               % (("the sorted list of the nodes' identifiers (R5.7)", "a relabelling of the input") if sorted_first else
+                  ("the order in which the dataset yields its quads", "the insertion order / the dataset implementation")), cf.loc)
     else:
         ck.ok("R5.6", "step 5.4.6: candidate paths compared with %s" % names)
 
